@@ -120,6 +120,33 @@ def conv_special(ti, k):
   return _check(TYPES[ti], SPECIAL[k])
 
 
+# Reference model of the one conversion whose rule is written down next to the code (usertypes.Text.do_convert: "format as
+# integer if possible to avoid scientific notation" for whole numbers a double holds exactly, i.e. of magnitude below
+# 2**53; 15 significant digits otherwise), written independently and compared on both sides of every boundary.
+TEXT_NUMS = [0.0, -0.0, 1.0, -1.0, 12.5, -12.5, 1234567890.0, -1234567890.0, float(2 ** 53 - 1), -float(2 ** 53 - 1), float(2 ** 53), -float(2 ** 53),
+             float(2 ** 53 + 2), -float(2 ** 53 + 2), 1.5e16, -1.5e16, 1e20, -1e20, 1e300, -1e300, 0.1, -0.1, 1e-7, 123456789012345.6, -123456789012345.6,
+             float("inf"), float("-inf"), float("nan"), 5, -5, 2 ** 53, -2 ** 53, 2 ** 64, -2 ** 64, True, False, None, b"ab", "x"]
+
+
+def _text_reference(v):
+  if v is None:
+    return None
+  if isinstance(v, bytes):
+    return v.decode("utf8")
+  if isinstance(v, float):
+    if v != v or v in (float("inf"), float("-inf")):
+      return str(v)
+    if -(2 ** 53) < v < 2 ** 53 and v == int(v):
+      return str(int(v))
+    return "%.15g" % v
+  return str(v)
+
+
+def text_reference(k):
+  got, want = usertypes.Text().convert(TEXT_NUMS[k]), _text_reference(TEXT_NUMS[k])
+  return type(got) == type(want) and got == want
+
+
 BLOB_IN = [5, True, 1.5, [1], "x", None, b"ab"]
 
 
@@ -147,6 +174,8 @@ ENUM = [
   {"func": "conv_date", "domains": {"ti": _TI, "k": list(range(len(DATES)))}, "shard_by": None, "max_s": 100, "desc": "dates and datetimes x every type"},
   {"func": "conv_special", "domains": {"ti": _TI, "k": list(range(len(SPECIAL)))}, "shard_by": None, "max_s": 100,
    "desc": "AltText, errors, bytes, tuples, dicts, sets, RecordList, complex, ... x every type"},
+  {"func": "text_reference", "domains": {"k": list(range(len(TEXT_NUMS)))}, "shard_by": None, "max_s": 60,
+   "desc": "Text.convert of numbers on both sides of +-2^53 and other boundaries equals an independently written reference of the documented rule"},
   {"func": "conv_blob", "domains": {"k": list(range(len(BLOB_IN)))}, "shard_by": None, "max_s": 60, "desc": "Blob column type (known finding: identity conversion)"},
 ]
 
